@@ -86,6 +86,22 @@ def gen_cases(tr, sd):
     for m in ([2] if tr == "quick" else [0, 1, 3, 6]):
         node = Cat([Lit('"'), Rep(json_char(), m, None), Lit('"')])
         cases.append(dict(level="json-length", mode="aut", kind="json", schema={"type": "string", "minLength": m}, node=node, mn=(m, None), alphabet=STR_ALPHA))
+    # enum / const members measured against length bounds: characters, not bytes
+    members = ["x", "é", "ab", "日本", "a€", "😀", "abc", ""]
+    lp = [(0, 1), (1, 1), (2, 2), (0, 2), (1, 3), (2, 4), (3, 3)] if tr == "quick" else [(m, n) for m in range(0, 4) for n in range(m, 5)]
+    for (m, n) in lp:
+        ok = [v for v in members if m <= len(v) <= n]
+        if not ok:
+            continue
+        node = Alt([Lit(json.dumps(v, ensure_ascii=False)) for v in ok])
+        cases.append(dict(level="json-length-enum", mode="aut", kind="json", schema={"type": "string", "enum": members, "minLength": m, "maxLength": n}, node=node, mn=(m, n)))
+    for v, m, n in [("日本", 0, 2), ("é", 0, 1), ("a€b", 3, 3), ("😀", 1, 1)]:
+        cases.append(dict(level="json-length-enum", mode="aut", kind="json", schema={"const": v, "minLength": m, "maxLength": n}, node=Lit(json.dumps(v, ensure_ascii=False)), mn=(m, n)))
+    # the same rule quantified twice (an at-most form before an exact form with the same n, and the other way round)
+    for n in ([2, 3] if tr == "quick" else [1, 2, 3, 4, 5, 9]):
+        cases.append(dict(level="rule-twice", mode="cyk", kind="lark", text="start: a{0,%d} \"y\" a{%d}\na: \"x\"\n" % (n, n), elt=["x"], mn=(n, n), twice="atmost-first", alt_y=False))
+        cases.append(dict(level="rule-twice", mode="cyk", kind="lark", text="start: a{%d} \"y\" a{0,%d}\na: \"x\"\n" % (n, n), elt=["x"], mn=(n, n), twice="exact-first", alt_y=False))
+        cases.append(dict(level="rule-twice", mode="cyk", kind="lark", text="start: a{1,%d} \"y\" a{%d,}\na: \"x\"\n" % (n + 1, n), elt=["x"], mn=(n, n), twice="range-then-atleast", alt_y=False))
     return cases
 
 
@@ -94,6 +110,20 @@ def count_ref(case, tid):
     m, n = case["mn"]
     elt = [("T", tid[c]) for c in case["elt"]]
     rules = []
+    if case.get("twice"):
+        y = ("T", tid["y"])
+        if case["twice"] == "atmost-first":
+            for i in range(0, n + 1):
+                rules.append(("S", elt * i + [y] + elt * n))
+        elif case["twice"] == "exact-first":
+            for i in range(0, n + 1):
+                rules.append(("S", elt * n + [y] + elt * i))
+        else:
+            rules.append(("R", []))
+            rules.append(("R", elt + [("N", "R")]))
+            for i in range(1, n + 2):
+                rules.append(("S", elt * i + [y] + elt * n + [("N", "R")]))
+        return gram.CFG(rules, "S")
     if case.get("nested"):
         lo, hi = case["nested"]
         # inner block I = elt^lo..hi ; S = I^m..n
@@ -120,6 +150,8 @@ def bound_for(case, tr):
         if case["level"] == "json-length":
             return min(2 + 2 * top, 18 if tr == "quick" else 26)
         return 2 * top
+    if case.get("twice"):
+        return 2 * (n or m) + 4
     if case.get("nested"):
         return min(3 * n + 2, 20)
     if case["mode"] == "cyk-json-array":
